@@ -72,6 +72,7 @@ func (a *A) Self() (interface{}, error) { return a.r("self", nil) }
 func (a *A) Kids() (interface{}, error) { return a.r("kids", nil) }
 func (a *A) Boom() (interface{}, error) { return a.r("boom", nil) }
 func (a *A) Many() (interface{}, error) { return a.r("many", nil) }
+func (a *A) Half() (interface{}, error) { return a.r("half", nil) }
 func (a *A) Tag(s string) (interface{}, error) {
 	return a.r("tag", map[string]interface{}{"s": s})
 }
